@@ -2,6 +2,7 @@ package props
 
 import (
 	"fmt"
+	"io"
 	"os/exec"
 	"reflect"
 	"sort"
@@ -246,6 +247,18 @@ func (s *c19State) battery(r *gen.R, exhaustiveSub int, mine []string) {
 			if err == nil || out != "" {
 				s.viol("unknown-name-renders", fmt.Sprintf("auto.New(%q) names nothing known but renders %q with error %v", st, out, err))
 				return
+			}
+			if k%2 == 0 {
+				st := st
+				if bad := refusedEverywhere(func(w io.Writer) error {
+					t := tabular.New()
+					c19Populate(t)
+					return auto.RenderTo(t, w, st)
+				}); bad != "" {
+					s.viol("unknown-name-renders:depending-on-the-destination", fmt.Sprintf("auto.RenderTo(t, w, %q) names nothing known, but %s", st, bad))
+					return
+				}
+				s.c.Rec.Count("refusals_probed_with_every_kind_of_destination", 1)
 			}
 		}
 	}
